@@ -1087,6 +1087,16 @@ func (m *Model) custom(neg bool, name string, args []string) bool {
 		if len(a) != 0 {
 			m.fail("usage")
 		}
+	case "cexec":
+		if len(args) < 1 {
+			m.fail("usage")
+		}
+		for _, a := range args {
+			if bgSpec.MatchString(a) {
+				m.unmodelled("cexec with an argument that looks like a background marker")
+			}
+		}
+		m.exec(neg, args)
 	case "setenv":
 		if neg || len(args) != 2 {
 			m.fail("usage")
